@@ -3,6 +3,7 @@
 # Confirms in a scratch worktree: (a) suite passes with the change, (b) demo fails with it,
 # (c) demo passes without it.  Writes /verif/seeded/<name>/{patch.diff,demo.rs,README.md,confirm.log}
 set -u
+exec < /dev/null
 src=$1; name=$2
 wt=/tmp/confirm-$name
 log=/verif/seeded/$name/confirm.log
